@@ -1295,7 +1295,7 @@ MUST_REACH = ["raw-in-named-range-end", "send-side:connected", "send-side:refuse
               "rebind:refused", "rebind:connected", "batch:direct",
               "batch:resolved", "churn-end"]
 BOUNDS = {
-    "quick": "histories of 1 fixed operation (15 kinds) + up to 2 picked from 11 (socket+bind none/address/name for the three socket kinds, second bind of a bound socket, listen, close, datagram from a second controller, resolve and connect-by-name through collect()/dispatch()), addresses symbolic inside windows {-1..1, 3..5, 31..33, 63..64}; bind(address) with the address symbolic over -1..64 after four table prefixes (fresh, populated, after close, all 48 bindable addresses taken) for each socket kind, bound twice and re-bound after close; all 32 dynamic / 16 named addresses taken, one closed, then a suffix of up to 2 operations; datagrams with symbolic DSAP 0..63, SSAP 0..63 and payload octets (lengths 0..3, one or two datagrams) against a populated table; named listener + accepted connection closed in any order (also twice) with up to 3 operations; close() repeated on a socket whose address was re-assigned in between (3 x 2 socket kinds, bind by none/address/name) + up to 2 operations; both devices binding the same service name at different addresses, A resolving it and sending a datagram / connecting to the answer; resolve with the name also bound on the resolving device; two (thorough: three) lookups in one SNL PDU for names from {bound, bound elsewhere, unbound, sdp, empty} in every order, through resolve() on A and as a hand-built PDU with symbolic transaction ids; 1/30/31/32/33 anonymous bind+close cycles keeping the last 0..2 sockets, 0/1/29..32 further cycles, then up to 3 operations; connect(name) through the real connect() after the peer closed and re-bound its two named listeners (swap, move, unbind, take-over, nothing), with and without an earlier resolve() of the name; names from a fixed alphabet of 8 (+ 17 filler names), given as bytes or text",
+    "quick": "histories of 1 fixed operation (15 kinds) + up to 2 picked from 11 (socket+bind none/address/name for the three socket kinds, second bind of a bound socket, listen, close, datagram from a second controller, resolve and connect-by-name through collect()/dispatch()), addresses symbolic inside windows {-1..1, 3..5, 31..33, 63..64}; bind(address) with the address symbolic over -1..64 after four table prefixes (fresh, populated, after close, all 48 bindable addresses taken) for each socket kind, bound twice and re-bound after close; all 32 dynamic / 16 named addresses taken, one closed, then a suffix of up to 2 operations; datagrams with symbolic DSAP 0..63, SSAP 0..63 and payload octets (lengths 0..3, one or two datagrams) against a populated table; named listener + accepted connection closed in any order (also twice) with up to 3 operations; close() repeated on a socket whose address was re-assigned in between (3 x 2 socket kinds, bind by none/address/name) + up to 2 operations; both devices binding the same service name at different addresses, A resolving it and sending a datagram / connecting to the answer; resolve with the name also bound on the resolving device; two (thorough: three) lookups in one SNL PDU for names from {bound, bound elsewhere, unbound, sdp, empty} in every order, through resolve() on A and as a hand-built PDU with symbolic transaction ids; 1/30/31/32/33 anonymous bind+close cycles keeping the last 0..2 sockets, 0/1/29..32 further cycles, then up to 3 operations; connect(name) through the real connect() after the peer closed and re-bound its two named listeners (swap, move, unbind, take-over, nothing), with and without an earlier resolve() of the name; names from a fixed alphabet of 8 (+ 17 filler names), given as bytes or text; added later: datagrams sent from a bound, unbound or connect()ed connection-less socket to a symbolic destination; raw access points bound by number at 16..19 and at a well-known address before named binds",
     "thorough": "as quick with histories of 2 fixed (26 x 7) + up to 2 picked operations, suffixes of up to 3/4 operations after exhaustion and up to 4 in the listener life cycle",
 }
 OUTSIDE = ["operations on closed sockets", "service names outside the alphabet (the name syntax check is a regular expression on concrete bytes)",
